@@ -139,13 +139,14 @@ fn events_check(script: &[u8]) -> Option<String> {
                         let nodes = match block_on(rep.missing_nodes(next_fetch)) { Ok(x) => x, Err(e) => return Some(e.to_string()) };
                         let rl = rep.info().length; let up = if rl < wlen { Some(RequestUpgrade { start: rl, length: wlen - rl }) } else { None };
                         let had_up = up.is_some();
+                        if !w.has(next_fetch) { want_w = vec![format!("Get({})", next_fetch)]; }   // create_proof reads the block through get(), which announces a miss
                         match block_on(w.create_proof(Some(RequestBlock { index: next_fetch, nodes }), None, None, up)) {
                             Ok(Some(p)) => { match block_on(rep.verify_and_apply_proof(&p)) { Ok(true) => { if had_up { want_r.push("Upgrade".into()); } want_r.push(format!("Have({},1,false)", next_fetch)); }, other => return Some(format!("honest proof not applied: {:?}", other.map_err(|e| e.to_string()))) } }
-                            Ok(None) => { want_w = vec![format!("Get({})", next_fetch)]; }   // block was cleared on the writer: create_proof reads it through get(), which announces the miss
+                            Ok(None) => {}   // block was cleared on the writer
                             Err(e) => return Some(format!("create_proof: {e}")) }
                         next_fetch += 1; } }
                 _ => { // refused proof: wrong fork
-                        if wlen > 0 { if let Ok(Some(mut p)) = block_on(w.create_proof(Some(RequestBlock { index: wlen - 1, nodes: 0 }), None, None, None)) { p.fork = 7; let _ = block_on(rep.verify_and_apply_proof(&p)); } }
+                        if wlen > 0 { if !w.has(wlen - 1) { want_w = vec![format!("Get({})", wlen - 1)]; } if let Ok(Some(mut p)) = block_on(w.create_proof(Some(RequestBlock { index: wlen - 1, nodes: 0 }), None, None, None)) { p.fork = 7; let _ = block_on(rep.verify_and_apply_proof(&p)); } }
                         let _ = block_on(rep.get(1 << 30)); want_r = vec![format!("Get({})", 1u64 << 30)]; }
             }
             let g1 = drain(&mut rx1); let g2 = drain(&mut rx2); let gr = drain(&mut rr);
